@@ -2,8 +2,10 @@ package rewriter
 
 import (
 	"go/ast"
+	"go/token"
 	"go/types"
 	"log"
+	"strconv"
 	"strings"
 
 	"github.com/goghcrow/go-ast-matcher"
@@ -50,7 +52,74 @@ func (o *optimizer) optimizeAllFiles(printer FilePrinter) {
 }
 
 func (o *optimizer) optimizeImports(f *loader.File) {
+	// only the files using the api are in sight, the type info is incomplete,
+	// use of an import in expr whose operand type declared in other file is not recorded,
+	// e.g., box.V.(time.Duration), Table{http.StatusOK: ...}
+	// so keep the imports which are still referred syntactically
+	type spec struct {
+		name, path string
+		renamed    bool
+	}
+	var (
+		pkg      = f.Package()
+		specs    []spec
+		referred = map[string]bool{}
+	)
+	for _, it := range f.File.Imports {
+		path, _ := strconv.Unquote(it.Path.Value)
+		if it.Name != nil {
+			if it.Name.Name != "_" && it.Name.Name != "." {
+				specs = append(specs, spec{it.Name.Name, path, true})
+				referred[it.Name.Name] = false
+			}
+			continue
+		}
+		if pn, ok := pkg.TypeInfo().Implicits[it].(*types.PkgName); ok {
+			specs = append(specs, spec{pn.Name(), path, false})
+			referred[pn.Name()] = false
+		}
+	}
+	ast.Inspect(f.File, func(n ast.Node) bool {
+		if sel, ok := n.(*ast.SelectorExpr); ok {
+			if x, ok := sel.X.(*ast.Ident); ok {
+				if _, isImport := referred[x.Name]; isImport {
+					obj := pkg.ObjectOf(x)
+					if obj == nil || instanceof[*types.PkgName](obj) {
+						referred[x.Name] = true
+					}
+				}
+			}
+		}
+		return true
+	})
+
 	imports.Clean(o.m.Loader, f)
+
+	var importDecl *ast.GenDecl
+	kept := map[string]bool{}
+	for _, decl := range f.File.Decls {
+		if decl, ok := decl.(*ast.GenDecl); ok && decl.Tok == token.IMPORT {
+			importDecl = decl
+			for _, it := range decl.Specs {
+				// the cleaner puts name and path together into the value
+				kept[it.(*ast.ImportSpec).Path.Value] = true
+			}
+		}
+	}
+	for _, it := range specs {
+		value := strconv.Quote(it.path)
+		if it.renamed {
+			value = it.name + " " + value
+		}
+		if referred[it.name] && !kept[value] && importDecl != nil {
+			importDecl.Specs = append(importDecl.Specs, &ast.ImportSpec{
+				Path: &ast.BasicLit{Kind: token.STRING, Value: value},
+			})
+			if !importDecl.Lparen.IsValid() {
+				importDecl.Lparen = importDecl.Pos() // grouped
+			}
+		}
+	}
 }
 
 // NOTICE:
